@@ -27,40 +27,69 @@ func runC31(c *an.Ctx) {
 	if gc == nil {
 		return
 	}
-	// 1. the compared quantity is len(set)+1
+	// 1. the compared quantity is len(set)+1: a comparison, in any spelling, that is equivalent to
+	//    len(S) >= threshold - 1 for a map S
 	var cmp *ssa.BinOp
 	var set ssa.Value
-	for _, v := range an.FindValues(gc, func(v ssa.Value) bool {
-		b, ok := v.(*ssa.BinOp)
-		if !ok || b.Op != token.GEQ {
-			return false
-		}
-		add, isAdd := b.X.(*ssa.BinOp)
-		if !isAdd || add.Op != token.ADD {
-			return false
-		}
-		k, isK := add.Y.(*ssa.Const)
-		return isK && k.Value != nil && k.Value.String() == "1"
-	}) {
-		cmp = v.(*ssa.BinOp)
-	}
-	if cmp == nil {
-		c.Violate("quorum|getCommitConsensus|count-is-set-size", "the quantity compared with the commit threshold is the size of a set of signer indexes (+1)", c.P.Rel(gc.Pos()), "no `x+1 >= threshold` comparison found")
-	} else {
-		x := cmp.X.(*ssa.BinOp).X
-		isLenOfMap := false
-		if call, ok := x.(*ssa.Call); ok {
+	quorumFail := an.AFalse // outcome of cmp when the quorum is NOT reached
+	counterCmp := ""
+	lenOfMap := func(v ssa.Value) ssa.Value {
+		if call, ok := v.(*ssa.Call); ok {
 			if bi, isB := call.Call.Value.(*ssa.Builtin); isB && bi.Name() == "len" {
 				if _, isMap := call.Call.Args[0].Type().Underlying().(*types.Map); isMap {
-					isLenOfMap = true
-					set = call.Call.Args[0]
+					return call.Call.Args[0]
 				}
 			}
 		}
-		c.Check(isLenOfMap, "quorum|getCommitConsensus|count-is-set-size", "the quantity compared with the commit threshold is the size of a set of signer indexes (+1), so a signer seen several times counts once", c.P.Rel(cmp.Pos()),
-			"the compared quantity is "+x.String()+" — a counter, not the size of a set keyed by signer")
+		return nil
+	}
+	for _, v := range an.FindValues(gc, func(v ssa.Value) bool { _, ok := v.(*ssa.BinOp); return ok }) {
+		b := v.(*ssa.BinOp)
+		op := b.Op
+		xb, xo, _ := linear(b.X)
+		yb, yo, _ := linear(b.Y)
+		var m ssa.Value
+		var a, bb int64 // len(S)+a  op  T+bb
+		switch {
+		case lenOfMap(xb) != nil:
+			m, a, bb = lenOfMap(xb), xo, yo
+		case lenOfMap(yb) != nil:
+			m, a, bb = lenOfMap(yb), yo, xo
+			op = mirrorOp[op]
+		default:
+			continue
+		}
+		// normalise to len(S) >= T + k (reached) ; for < and <= the comparison is the negation
+		var k int64
+		fail := an.AFalse
+		switch op {
+		case token.GEQ:
+			k = bb - a
+		case token.GTR:
+			k = bb - a + 1
+		case token.LSS: // len+a < T+bb  <=>  !(len >= T+bb-a)
+			k, fail = bb-a, an.ATrue
+		case token.LEQ: // len+a <= T+bb <=>  !(len >= T+bb-a+1)
+			k, fail = bb-a+1, an.ATrue
+		default:
+			continue
+		}
+		if k != -1 {
+			counterCmp = fmt.Sprintf("len(set) is compared as len >= threshold%+d at %s, not len+1 >= threshold", k, c.P.Rel(b.Pos()))
+			continue
+		}
+		cmp, set, quorumFail = b, m, fail
+	}
+	if cmp == nil {
+		why := "no comparison equivalent to `len(set)+1 >= threshold` found"
+		if counterCmp != "" {
+			why = counterCmp
+		}
+		c.Violate("quorum|getCommitConsensus|count-is-set-size", "the quantity compared with the commit threshold is the size of a set of signer indexes (+1)", c.P.Rel(gc.Pos()), why)
+	} else {
+		c.Hold("quorum|getCommitConsensus|count-is-set-size", "the quantity compared with the commit threshold is the size of a set of signer indexes (+1), so a signer seen several times counts once", c.P.Rel(cmp.Pos()), "")
 		// success returns guarded by the comparison
-		g := &an.Guard{Name: "quorum reached", FailValue: an.AFalse, MatchValue: func(v ssa.Value) bool { return v == ssa.Value(cmp) }}
+		g := &an.Guard{Name: "quorum reached", FailValue: quorumFail, MatchValue: func(v ssa.Value) bool { return v == ssa.Value(cmp) }}
 		v := an.Guarded(c.P, gc, []*an.Guard{g}, func(in ssa.Instruction) bool {
 			r, ok := in.(*ssa.Return)
 			if !ok {
